@@ -352,10 +352,11 @@ func (h *harness) checkScenario(sc *scenario) {
 				shown++
 			}
 		}
-		if strings.Contains(obs.stderr, "[WARN] stdout:\n") {
+		// the two warnings carrying the output of a run that did not exit with status 0 belong to that run
+		if cl.run != "x0" && strings.Contains(obs.stderr, "[WARN] stdout:\n") {
 			shown++
 		}
-		if strings.Contains(obs.stderr, "[WARN] stderr:\n") {
+		if cl.run != "x0" && strings.Contains(obs.stderr, "[WARN] stderr:\n") {
 			shown++
 		}
 		if p.Script.Stderr != "" && strings.Contains(obs.stderr, "[WARN] c11plugin stderr:\n"+p.Script.Stderr) {
